@@ -398,6 +398,26 @@ fn one_case(opts: &Opts, idx: u64, rng: &mut Rng, case_id: &str, mut shared: &mu
                            "got" => format!("{got:?}"), "expected" => format!("{expected_list:?}"), "case_id" => case_id.clone()},
                 );
             }
+            // the items are produced lazily by user code that matches with another pattern while the list is drained
+            if !heavy && idx % 9 == 0 && !pattern.atoms.is_empty() {
+                let inner = Pattern::parse(*rng.pick(&["a", "b", "!c", "A", "-"]), CaseMatching::Smart, Normalization::Smart);
+                let mut m2 = Matcher::new(cfg.clone());
+                let eager: Vec<&str> = items.iter().map(|s| s.as_str()).filter(|s| !inner.match_list([*s], &mut m2).is_empty()).collect();
+                let expected_nested: Vec<(String, u32)> = pattern.match_list(eager.iter().copied(), &mut shared).into_iter().map(|(s, sc)| (s.to_owned(), sc)).collect();
+                let mut m3 = Matcher::new(cfg.clone());
+                let lazy = items.iter().map(|s| s.as_str()).filter(|s| !inner.match_list([*s], &mut m3).is_empty());
+                let got_nested: Vec<(String, u32)> = pattern.match_list(lazy, &mut shared).into_iter().map(|(s, sc)| (s.to_owned(), sc)).collect();
+                rep.count("c15.match-list-drained-from-a-matching-iterator");
+                if got_nested != expected_nested {
+                    rep.violation(
+                        "C15",
+                        "match-list",
+                        "items produced by an iterator that matches itself".into(),
+                        jobj! {"atoms" => format!("{:?}", pattern.atoms), "items" => format!("{items:?}"), "got" => format!("{got_nested:?}"),
+                               "expected" => format!("{expected_nested:?}"), "case_id" => case_id.clone()},
+                    );
+                }
+            }
             // Atom::match_list
             if let Some(a) = pattern.atoms.first() {
                 let mut exp: Vec<(usize, u16)> = Vec::new();
